@@ -1,5 +1,750 @@
-//! C02 — not implemented yet.
+//! C02 — extension towers implement arithmetic of F_p[X]/(X^k - beta).
+mod orc;
+mod toy;
+
+use ark_ff::fields::fp6_2over3 as f6q;
+use ark_ff::fields::{
+    CubicExtConfig, CubicExtField, CyclotomicMultSubgroup, Field, Fp12, Fp12Config, Fp2, Fp2Config, Fp3, Fp3Config, Fp4,
+    Fp4Config, Fp6, Fp6Config, QuadExtConfig, QuadExtField,
+};
+use ark_ff::One;
+use num_bigint::BigUint;
+use orc::*;
+use std::sync::Arc;
+use vh_core::engine::{no_panic, Obs, PropSpec, Rel, Tape, Tier, R};
+use vh_core::gen::edge_value;
+use vh_core::modint::big;
+use vh_core::tower::{edge_elem, Elem, OracleRepr, Tower};
+use vh_core::{ensure, fail};
+
+// ---------------------------------------------------------------------------------------------
+// helpers
+// ---------------------------------------------------------------------------------------------
+
+fn show(e: &Elem) -> String {
+    fn flat(e: &Elem, out: &mut Vec<String>) {
+        match e {
+            Elem::P(x) => out.push(format!("0x{:x}", x)),
+            Elem::E(v) => v.iter().for_each(|x| flat(x, out)),
+        }
+    }
+    let mut v = Vec::new();
+    flat(e, &mut v);
+    format!("[{}]", v.join(", "))
+}
+
+/// result must be canonical and equal to the oracle element
+fn chk<F: OracleRepr>(got: &F, want: &Elem, sig: &str) -> R {
+    if !got.canonical() {
+        return fail(format!("{}.noncanonical", sig), format!("{}: a stored coordinate is >= p: {:?}", sig, got));
+    }
+    let g = got.to_o();
+    if g != *want {
+        return fail(sig, format!("{}: got {} expected {}", sig, show(&g), show(want)));
+    }
+    Ok(())
+}
+
+fn prime_of<F: Field>(v: &BigUint) -> F::BasePrimeField
+where
+    F::BasePrimeField: OracleRepr,
+{
+    <F::BasePrimeField as OracleRepr>::from_o(&Elem::P(v.clone()))
+}
+
+fn trivial(c: &Ctx, e: &Elem) -> bool {
+    c.tw.is_zero(e) || c.is_one(e)
+}
+
+/// `norm` and multiplication by an element of the field one level down, for both templates
+trait Ext: OracleRepr {
+    type Base: OracleRepr;
+    fn norm_(&self) -> Self::Base;
+    fn mul_base(&mut self, b: &Self::Base);
+    /// conjugation over the base (quadratic template only)
+    fn conj(&mut self) -> bool;
+}
+impl<P: QuadExtConfig> Ext for QuadExtField<P>
+where
+    P::BaseField: OracleRepr,
+{
+    type Base = P::BaseField;
+    fn norm_(&self) -> Self::Base {
+        self.norm()
+    }
+    fn mul_base(&mut self, b: &Self::Base) {
+        self.mul_assign_by_basefield(b)
+    }
+    fn conj(&mut self) -> bool {
+        self.conjugate_in_place();
+        true
+    }
+}
+impl<P: CubicExtConfig> Ext for CubicExtField<P>
+where
+    P::BaseField: OracleRepr,
+{
+    type Base = P::BaseField;
+    fn norm_(&self) -> Self::Base {
+        self.norm()
+    }
+    fn mul_base(&mut self, b: &Self::Base) {
+        self.mul_assign_by_base_field(b)
+    }
+    fn conj(&mut self) -> bool {
+        false
+    }
+}
+
+// ---------------------------------------------------------------------------------------------
+// relations common to every tower type
+// ---------------------------------------------------------------------------------------------
+
+fn arith<F: OracleRepr>(c: &Ctx, t: &mut Tape<'_>, o: &mut Obs) -> R
+where
+    F::BasePrimeField: OracleRepr,
+{
+    let (ae, ac) = gen_elem(t, c);
+    let (be, bc) = gen_second(t, c, &ae);
+    let (sv, sc) = edge_value(t, &c.prime);
+    o.show(|| format!("{}: a={} [{}] b={} [{}] s=0x{:x} [{}]", c.name, show(&ae), ac, show(&be), bc, sv, sc));
+    o.class(ac);
+    o.class(bc);
+    arith_on::<F>(c, &ae, &be, &sv, o)
+}
+
+fn arith_on<F: OracleRepr>(c: &Ctx, ae: &Elem, be: &Elem, sv: &BigUint, o: &mut Obs) -> R
+where
+    F::BasePrimeField: OracleRepr,
+{
+    let tw = &c.tw;
+    let (ae, be) = (ae.clone(), be.clone());
+    let a = F::from_o(&ae);
+    let b = F::from_o(&be);
+    let s = prime_of::<F>(sv);
+    o.nt(!trivial(c, &ae) && !trivial(c, &be));
+    o.class_if(c.nnz(&ae) >= 2 && c.nnz(&be) >= 2, ">=2-nonzero-coords-each");
+    o.evals(34);
+
+    // additive
+    let want = tw.add(&ae, &be);
+    chk(&(a + b), &want, "add")?;
+    chk(&(a + &b), &want, "add.ref")?;
+    let mut x = a;
+    x += b;
+    chk(&x, &want, "add_assign")?;
+    let mut x = a;
+    x += &b;
+    chk(&x, &want, "add_assign.ref")?;
+    let want = tw.sub(&ae, &be);
+    chk(&(a - b), &want, "sub")?;
+    chk(&(a - &b), &want, "sub.ref")?;
+    let mut x = a;
+    x -= b;
+    chk(&x, &want, "sub_assign")?;
+    let mut x = a;
+    x -= &b;
+    chk(&x, &want, "sub_assign.ref")?;
+    let want = tw.neg(&ae);
+    chk(&(-a), &want, "neg")?;
+    let mut x = a;
+    x.neg_in_place();
+    chk(&x, &want, "neg_in_place")?;
+    let want = tw.add(&ae, &ae);
+    chk(&a.double(), &want, "double")?;
+    let mut x = a;
+    x.double_in_place();
+    chk(&x, &want, "double_in_place")?;
+
+    // multiplicative
+    let ab = tw.mul(&ae, &be);
+    chk(&(a * b), &ab, "mul")?;
+    chk(&(a * &b), &ab, "mul.ref")?;
+    chk(&(b * a), &ab, "mul.commuted")?;
+    let mut x = a;
+    x *= b;
+    chk(&x, &ab, "mul_assign")?;
+    let mut x = a;
+    x *= &b;
+    chk(&x, &ab, "mul_assign.ref")?;
+    let aa = tw.mul(&ae, &ae);
+    chk(&a.square(), &aa, "square")?;
+    let mut x = a;
+    x.square_in_place();
+    chk(&x, &aa, "square_in_place")?;
+    chk(&(a * a), &aa, "mul.self")?;
+    chk(&F::sum_of_products(&[a, b], &[b, a]), &tw.add(&ab, &ab), "sum_of_products")?;
+
+    // inverse: a * a^-1 = 1 under the oracle product (uniqueness makes this exact)
+    match a.inverse() {
+        None => ensure!(tw.is_zero(&ae), "inverse.none", "inverse({}) returned None", show(&ae)),
+        Some(i) => {
+            ensure!(!tw.is_zero(&ae), "inverse.zero", "inverse(0) returned Some");
+            ensure!(i.canonical(), "inverse.noncanonical", "non canonical coordinates in {:?}", i);
+            let pr = tw.mul(&ae, &i.to_o());
+            ensure!(c.is_one(&pr), "inverse", "a * inverse(a) = {} for a = {}", show(&pr), show(&ae));
+            let mut x = a;
+            ensure!(x.inverse_in_place().is_some(), "inverse_in_place.none", "None for a = {}", show(&ae));
+            chk(&x, &i.to_o(), "inverse_in_place")?;
+        },
+    }
+    if tw.is_zero(&ae) {
+        let mut x = a;
+        ensure!(x.inverse_in_place().is_none(), "inverse_in_place.zero", "Some for zero");
+    }
+    if !tw.is_zero(&be) {
+        let q = a / b;
+        ensure!(q.canonical(), "div.noncanonical", "non canonical coordinates in {:?}", q);
+        let back = tw.mul(&q.to_o(), &be);
+        ensure!(back == ae, "div", "(a / b) * b = {} for a = {} b = {}", show(&back), show(&ae), show(&be));
+        let mut x = a;
+        x /= &b;
+        chk(&x, &q.to_o(), "div_assign")?;
+    }
+
+    // prime-field scalars and coordinates
+    let se = tw.from_int(sv);
+    chk(&F::from_base_prime_field(s), &se, "from_base_prime_field")?;
+    chk(&a.mul_by_base_prime_field(&s), &tw.mul(&ae, &se), "mul_by_base_prime_field")?;
+    let coords: Vec<F::BasePrimeField> = a.to_base_prime_field_elements().collect();
+    let flat = tw.flatten(&ae);
+    ensure!(coords.len() == c.d, "to_base_prime_field_elements.len", "{} coordinates, degree {}", coords.len(), c.d);
+    for (i, x) in coords.iter().enumerate() {
+        chk(x, &Elem::P(flat[i].clone()), "to_base_prime_field_elements")?;
+    }
+    match F::from_base_prime_field_elems(coords.iter().copied()) {
+        Some(x) => chk(&x, &ae, "from_base_prime_field_elems")?,
+        None => return fail("from_base_prime_field_elems.none", "None for a full coordinate vector"),
+    }
+    ensure!(
+        F::from_base_prime_field_elems(coords.iter().copied().take(c.d - 1)).is_none(),
+        "from_base_prime_field_elems.short",
+        "Some for d-1 coordinates"
+    );
+    ensure!(
+        F::from_base_prime_field_elems(coords.iter().copied().chain(std::iter::once(s))).is_none(),
+        "from_base_prime_field_elems.long",
+        "Some for d+1 coordinates"
+    );
+    ensure!(F::extension_degree() as usize == c.d, "extension_degree", "{} vs {}", F::extension_degree(), c.d);
+    ensure!(a.is_zero() == tw.is_zero(&ae), "is_zero", "is_zero({}) = {}", show(&ae), a.is_zero());
+    ensure!(a.is_one() == c.is_one(&ae), "is_one", "is_one({}) = {}", show(&ae), a.is_one());
+    ensure!((a == b) == (ae == be), "eq", "a == b is {} for a = {} b = {}", a == b, show(&ae), show(&be));
+    Ok(())
+}
+
+/// frobenius_map(k) for every k = 0..=d+1 and one larger k, against x -> x^p applied k times
+/// (x^p by F_p-linearity from the schoolbook powers e_i^p of the basis)
+fn frobenius<F: OracleRepr>(c: &Ctx, t: &mut Tape<'_>, o: &mut Obs) -> R {
+    let (ae, ac) = gen_elem(t, c);
+    let kbig = c.d + 2 + t.idx(2 * c.d + 3);
+    o.show(|| format!("{}: frobenius_map(0..={} and {}) of {} [{}]", c.name, c.d + 1, kbig, show(&ae), ac));
+    o.class(ac);
+    frobenius_on::<F>(c, &ae, kbig, o)
+}
+
+fn frobenius_on<F: OracleRepr>(c: &Ctx, ae: &Elem, kbig: usize, o: &mut Obs) -> R {
+    let ae = ae.clone();
+    let a = F::from_o(&ae);
+    o.nt(!trivial(c, &ae));
+    o.evals(c.d as u64 + 3);
+    let mut cur = ae.clone();
+    for k in 0..=kbig {
+        if k > 0 {
+            cur = c.frob1(&cur);
+        }
+        if k == c.d {
+            ensure!(cur == ae, "oracle.frobenius-order", "oracle: x^(p^d) != x for {}", show(&ae));
+        }
+        if k <= c.d + 1 || k == kbig {
+            let got = no_panic("frobenius_map", || a.frobenius_map(k))?;
+            if let Err(mut f) = chk(&got, &cur, "frobenius_map") {
+                f.msg = format!("k={} a={}: {}", k, show(&ae), f.msg);
+                return Err(f);
+            }
+            let mut x = a;
+            x.frobenius_map_in_place(k);
+            chk(&x, &cur, "frobenius_map_in_place")?;
+        }
+    }
+    Ok(())
+}
+
+/// the definition itself, without the linearity shortcut: frobenius_map(k) = x^(p^k) by schoolbook square-and-multiply
+fn frobenius_direct<F: OracleRepr>(c: &Ctx, kmax: usize, t: &mut Tape<'_>, o: &mut Obs) -> R {
+    let (ae, ac) = gen_elem(t, c);
+    let a = F::from_o(&ae);
+    let k = 1 + t.idx(kmax);
+    o.show(|| format!("{}: frobenius_map({}) vs schoolbook power of {} [{}]", c.name, k, show(&ae), ac));
+    o.nt(!trivial(c, &ae));
+    o.class(ac);
+    let mut e = BigUint::one();
+    for _ in 0..k {
+        e *= &c.p;
+    }
+    let want = c.tw.pow(&ae, &e);
+    ensure!(want == c.frob(&ae, k), "oracle.frobenius-linear", "oracle: linear Frobenius disagrees with the power for {}", show(&ae));
+    chk(&a.frobenius_map(k), &want, "frobenius_map")
+}
+
+/// norm over the field one level down = product of the conjugates; multiplication by an element of that field
+fn base_rel<F: Ext>(c: &Ctx, bt: &Tower, t: &mut Tape<'_>, o: &mut Obs) -> R {
+    let (ae, ac) = gen_elem(t, c);
+    let (be, bc) = edge_elem(t, bt, &c.prime);
+    o.show(|| format!("{}: norm(a), a * b; a={} [{}] base element b={} [{}]", c.name, show(&ae), ac, show(&be), bc));
+    o.class(ac);
+    base_on::<F>(c, bt, &ae, &be, o)
+}
+
+fn base_on<F: Ext>(c: &Ctx, bt: &Tower, ae: &Elem, be: &Elem, o: &mut Obs) -> R {
+    let tw = &c.tw;
+    let (ae, be) = (ae.clone(), be.clone());
+    let a = F::from_o(&ae);
+    let b = <F::Base as OracleRepr>::from_o(&be);
+    o.nt(!trivial(c, &ae));
+    o.evals(2);
+    // norm
+    let mut prod = ae.clone();
+    let mut cur = ae.clone();
+    for _ in 1..c.top {
+        cur = c.frob(&cur, c.base_d);
+        prod = tw.mul(&prod, &cur);
+    }
+    let want = match &prod {
+        Elem::E(v) => {
+            let z = bt.zero();
+            ensure!(v[1..].iter().all(|x| *x == z), "oracle.norm-not-in-base", "oracle: product of conjugates {} is not in the base field", show(&prod));
+            v[0].clone()
+        },
+        _ => unreachable!(),
+    };
+    let got = no_panic("norm", || a.norm_())?;
+    if let Err(mut f) = chk(&got, &want, "norm") {
+        f.msg = format!("a={}: {}", show(&ae), f.msg);
+        return Err(f);
+    }
+    // multiplication by a base-field element
+    let mut x = a;
+    x.mul_base(&b);
+    chk(&x, &tw.mul(&ae, &tw.from_base(&be)), "mul_assign_by_basefield")?;
+    Ok(())
+}
+
+fn gen_exp(t: &mut Tape<'_>) -> (Vec<u64>, &'static str) {
+    match t.weighted(&[2, 3, 3, 3, 2, 2]) {
+        0 => (vec![t.below(17)], "exp-small"),
+        1 => (vec![u64::MAX; 1 + t.idx(2)], "exp-all-ones-limbs"),
+        2 => (vec![t.edge_u64()], "exp-edge-limb"),
+        3 => (vec![t.u64() | (if t.bool() { 3 } else { 1 }) << 62], "exp-top-heavy"),
+        4 => (vec![t.edge_u64(), t.edge_u64()], "exp-two-limbs"),
+        _ => match t.below(3) {
+            0 => (vec![], "exp-empty"),
+            1 => (vec![t.edge_u64(), 0], "exp-leading-zero-limb"),
+            _ => (vec![0, t.below(1 << 20)], "exp-low-limb-zero"),
+        },
+    }
+}
+
+/// cyclotomic_square / cyclotomic_inverse / cyclotomic_exp against the oracle square / inverse / power on elements of the
+/// cyclotomic subgroup of order Phi_d(p), built by the oracle as x^((p^(d/2)-1)(p^(d/6)+1)) (d = 6, 12), x^(p^(d/2)-1) (d = 2, 4),
+/// x^(p-1) (d = 3)
+fn cyclo<F: Ext + CyclotomicMultSubgroup>(c: &Ctx, with_exp: bool, t: &mut Tape<'_>, o: &mut Obs) -> R {
+    let tw = &c.tw;
+    let d = c.d;
+    let (xe, xc) = if t.chance(2, 3) {
+        let co: Vec<BigUint> = (0..d).map(|_| edge_value(t, &c.prime).0).collect();
+        let e = tw.unflatten(&co);
+        if tw.is_zero(&e) {
+            (tw.one(), "one")
+        } else {
+            (e, "dense")
+        }
+    } else {
+        gen_nonzero(t, c)
+    };
+    o.class(xc);
+    if with_exp {
+        let (e, ec) = gen_exp(t);
+        o.class(ec);
+        cyclo_on::<F>(c, &xe, Some(&e), o)
+    } else {
+        cyclo_on::<F>(c, &xe, None, o)
+    }
+}
+
+fn cyclo_on<F: Ext + CyclotomicMultSubgroup>(c: &Ctx, xe: &Elem, e: Option<&[u64]>, o: &mut Obs) -> R {
+    let tw = &c.tw;
+    let d = c.d;
+    let xe = xe.clone();
+    let xi = c.inv(&xe).expect("non-zero");
+    ensure!(c.is_one(&tw.mul(&xe, &xi)), "oracle.inverse", "oracle: linear-solve inverse is wrong for {}", show(&xe));
+    let mut ye = if d % 2 == 0 { tw.mul(&c.frob(&xe, d / 2), &xi) } else { tw.mul(&c.frob1(&xe), &xi) };
+    if d % 6 == 0 {
+        ye = tw.mul(&c.frob(&ye, d / 6), &ye);
+    }
+    // membership in the subgroup of order Phi_d(p), via Frobenius
+    let member = match d {
+        2 => c.is_one(&tw.mul(&c.frob1(&ye), &ye)),
+        3 => c.is_one(&tw.mul(&tw.mul(&c.frob(&ye, 2), &c.frob1(&ye)), &ye)),
+        4 => c.is_one(&tw.mul(&c.frob(&ye, 2), &ye)),
+        6 => tw.mul(&c.frob(&ye, 2), &ye) == c.frob1(&ye),
+        12 => tw.mul(&c.frob(&ye, 4), &ye) == c.frob(&ye, 2),
+        _ => unreachable!(),
+    };
+    ensure!(member, "oracle.cyclotomic-membership", "oracle: constructed element is not in the cyclotomic subgroup (x = {})", show(&xe));
+    let y = F::from_o(&ye);
+    o.show(|| {
+        let es = e.map(|e| format!("; exponent limbs {:x?}", e)).unwrap_or_default();
+        format!("{}: y = x^(Phi-cofactor) in the cyclotomic subgroup, x={}; y={}{}", c.name, show(&xe), show(&ye), es)
+    });
+    o.nt(!c.is_one(&ye));
+    o.class_if(c.is_one(&ye), "y=1");
+    o.evals(8);
+
+    let sq = tw.mul(&ye, &ye);
+    chk(&y.cyclotomic_square(), &sq, "cyclotomic_square")?;
+    let mut z = y;
+    z.cyclotomic_square_in_place();
+    chk(&z, &sq, "cyclotomic_square_in_place")?;
+
+    let yi = c.inv(&ye).expect("non-zero");
+    match y.cyclotomic_inverse() {
+        Some(i) => chk(&i, &yi, "cyclotomic_inverse")?,
+        None => return fail("cyclotomic_inverse.none", format!("None for y = {}", show(&ye))),
+    }
+    let mut z = y;
+    ensure!(z.cyclotomic_inverse_in_place().is_some(), "cyclotomic_inverse_in_place.none", "None");
+    chk(&z, &yi, "cyclotomic_inverse_in_place")?;
+    let mut z = y;
+    if z.conj() {
+        chk(&z, &yi, "conjugate_in_place")?;
+    }
+    ensure!(F::zero().cyclotomic_inverse().is_none(), "cyclotomic_inverse.zero", "Some for zero");
+
+    let e = match e {
+        Some(e) => e,
+        None => return Ok(()),
+    };
+    let ev = big(e);
+    let want = tw.pow(&ye, &ev);
+    if let Err(mut f) = chk(&y.cyclotomic_exp(e), &want, "cyclotomic_exp") {
+        f.msg = format!("exponent limbs {:x?}, y = {}: {}", e, show(&ye), f.msg);
+        return Err(f);
+    }
+    let mut z = y;
+    z.cyclotomic_exp_in_place(e);
+    chk(&z, &want, "cyclotomic_exp_in_place")?;
+    chk(&y.pow(e), &want, "pow")?;
+    Ok(())
+}
+
+// ---------------------------------------------------------------------------------------------
+// sparse multiplications, per template
+// ---------------------------------------------------------------------------------------------
+
+fn blk<F: OracleRepr>(tw: &Tower, co: &[BigUint]) -> F {
+    F::from_o(&tw.unflatten(co))
+}
+
+fn sparse_head(c: &Ctx, t: &mut Tape<'_>, o: &mut Obs) -> (Elem, &'static str) {
+    let (ze, zc) = gen_elem(t, c);
+    o.nt(!trivial(c, &ze));
+    o.class(zc);
+    (ze, zc)
+}
+
+fn sparse_fp2<P: Fp2Config>(c: &Ctx, t: &mut Tape<'_>, o: &mut Obs) -> R
+where
+    P::Fp: OracleRepr,
+{
+    let (ze, zc) = sparse_head(c, t, o);
+    let (sv, _) = edge_value(t, &c.prime);
+    o.show(|| format!("{}: mul_assign_by_fp z={} [{}] s=0x{:x}", c.name, show(&ze), zc, sv));
+    let mut z = Fp2::<P>::from_o(&ze);
+    z.mul_assign_by_fp(&P::Fp::from_o(&Elem::P(sv.clone())));
+    chk(&z, &c.tw.mul(&ze, &c.tw.from_int(&sv)), "mul_assign_by_fp")
+}
+
+fn sparse_fp3<P: Fp3Config>(c: &Ctx, t: &mut Tape<'_>, o: &mut Obs) -> R
+where
+    P::Fp: OracleRepr,
+{
+    let (ze, zc) = sparse_head(c, t, o);
+    let (sv, _) = edge_value(t, &c.prime);
+    o.show(|| format!("{}: mul_assign_by_fp z={} [{}] s=0x{:x}", c.name, show(&ze), zc, sv));
+    let mut z = Fp3::<P>::from_o(&ze);
+    z.mul_assign_by_fp(&P::Fp::from_o(&Elem::P(sv.clone())));
+    chk(&z, &c.tw.mul(&ze, &c.tw.from_int(&sv)), "mul_assign_by_fp")
+}
+
+fn sparse_fp4<P: Fp4Config>(c: &Ctx, t2: &Tower, t: &mut Tape<'_>, o: &mut Obs) -> R
+where
+    <P::Fp2Config as Fp2Config>::Fp: OracleRepr,
+{
+    let (ze, zc) = sparse_head(c, t, o);
+    let z = Fp4::<P>::from_o(&ze);
+    if t.bool() {
+        let (sv, _) = edge_value(t, &c.prime);
+        o.show(|| format!("{}: mul_by_fp z={} [{}] s=0x{:x}", c.name, show(&ze), zc, sv));
+        let mut r = z;
+        r.mul_by_fp(&<P::Fp2Config as Fp2Config>::Fp::from_o(&Elem::P(sv.clone())));
+        chk(&r, &c.tw.mul(&ze, &c.tw.from_int(&sv)), "mul_by_fp")
+    } else {
+        let b = gen_block(t, c, 2);
+        o.show(|| format!("{}: mul_by_fp2 z={} [{}] fp2={:x?}", c.name, show(&ze), zc, b));
+        let mut r = z;
+        r.mul_by_fp2(&blk::<Fp2<P::Fp2Config>>(t2, &b));
+        chk(&r, &c.tw.mul(&ze, &c.embed(2, &[(0, b)])), "mul_by_fp2")
+    }
+}
+
+/// Fp6 as a quadratic extension of Fp3: sparse operands are prime-field coefficients at flat positions 0,3,4 / 0,1,4
+fn sparse_fp6q<P: f6q::Fp6Config>(c: &Ctx, t: &mut Tape<'_>, o: &mut Obs) -> R
+where
+    <P::Fp3Config as Fp3Config>::Fp: OracleRepr,
+{
+    let (ze, zc) = sparse_head(c, t, o);
+    let z = f6q::Fp6::<P>::from_o(&ze);
+    let which = t.bool();
+    let b: Vec<Vec<BigUint>> = (0..3).map(|_| gen_block(t, c, 1)).collect();
+    let f = |i: usize| <P::Fp3Config as Fp3Config>::Fp::from_o(&Elem::P(b[i][0].clone()));
+    o.show(|| format!("{}: {} z={} [{}] operands={:x?}", c.name, if which { "mul_by_014" } else { "mul_by_034" }, show(&ze), zc, b));
+    let mut r = z;
+    if which {
+        r.mul_by_014(&f(0), &f(1), &f(2));
+        let x = c.embed(1, &[(0, b[0].clone()), (1, b[1].clone()), (4, b[2].clone())]);
+        chk(&r, &c.tw.mul(&ze, &x), "mul_by_014")
+    } else {
+        r.mul_by_034(&f(0), &f(1), &f(2));
+        let x = c.embed(1, &[(0, b[0].clone()), (3, b[1].clone()), (4, b[2].clone())]);
+        chk(&r, &c.tw.mul(&ze, &x), "mul_by_034")
+    }
+}
+
+/// Fp6 as a cubic extension of Fp2: mul_by_1 (0, c1, 0), mul_by_01 (c0, c1, 0), scalars from Fp and Fp2
+fn sparse_fp6c<P: Fp6Config>(c: &Ctx, t2: &Tower, t: &mut Tape<'_>, o: &mut Obs) -> R
+where
+    <P::Fp2Config as Fp2Config>::Fp: OracleRepr,
+{
+    let (ze, zc) = sparse_head(c, t, o);
+    let z = Fp6::<P>::from_o(&ze);
+    let which = t.below(5);
+    let b0 = gen_block(t, c, 2);
+    let b1 = gen_block(t, c, 2);
+    let (sv, _) = edge_value(t, &c.prime);
+    let f2 = |b: &Vec<BigUint>| blk::<Fp2<P::Fp2Config>>(t2, b);
+    let names = ["mul_by_1", "mul_by_01", "mul_by_fp", "mul_by_fp2", "mul_assign_by_fp2"];
+    o.show(|| format!("{}: {} z={} [{}] fp2 operands {:x?} {:x?} s=0x{:x}", c.name, names[which as usize], show(&ze), zc, b0, b1, sv));
+    let mut r = z;
+    match which {
+        0 => {
+            r.mul_by_1(&f2(&b1));
+            chk(&r, &c.tw.mul(&ze, &c.embed(2, &[(1, b1)])), "mul_by_1")
+        },
+        1 => {
+            r.mul_by_01(&f2(&b0), &f2(&b1));
+            chk(&r, &c.tw.mul(&ze, &c.embed(2, &[(0, b0), (1, b1)])), "mul_by_01")
+        },
+        2 => {
+            r.mul_by_fp(&<P::Fp2Config as Fp2Config>::Fp::from_o(&Elem::P(sv.clone())));
+            chk(&r, &c.tw.mul(&ze, &c.tw.from_int(&sv)), "mul_by_fp")
+        },
+        3 => {
+            r.mul_by_fp2(&f2(&b0));
+            chk(&r, &c.tw.mul(&ze, &c.embed(2, &[(0, b0)])), "mul_by_fp2")
+        },
+        _ => {
+            r.mul_assign_by_fp2(f2(&b0));
+            chk(&r, &c.tw.mul(&ze, &c.embed(2, &[(0, b0)])), "mul_assign_by_fp2")
+        },
+    }
+}
+
+type Fp12Fp2<P> = Fp2<<<P as Fp12Config>::Fp6Config as Fp6Config>::Fp2Config>;
+type Fp12Fp<P> = <<<P as Fp12Config>::Fp6Config as Fp6Config>::Fp2Config as Fp2Config>::Fp;
+
+/// Fp12 = Fp6[w]/(w^2 - v), Fp6 = Fp2[v]/(v^3 - xi): Fp2 slots 0..2 are c0 = (.,.,.), slots 3..5 are c1
+fn sparse_fp12<P: Fp12Config>(c: &Ctx, t2: &Tower, t: &mut Tape<'_>, o: &mut Obs) -> R
+where
+    Fp12Fp<P>: OracleRepr,
+{
+    let (ze, zc) = sparse_head(c, t, o);
+    let z = Fp12::<P>::from_o(&ze);
+    let which = t.weighted(&[3, 3, 1]);
+    let b: Vec<Vec<BigUint>> = (0..3).map(|_| gen_block(t, c, 2)).collect();
+    let (sv, _) = edge_value(t, &c.prime);
+    let f2 = |i: usize| blk::<Fp12Fp2<P>>(t2, &b[i]);
+    let names = ["mul_by_034", "mul_by_014", "mul_by_fp"];
+    o.show(|| format!("{}: {} z={} [{}] fp2 operands {:x?} s=0x{:x}", c.name, names[which], show(&ze), zc, b, sv));
+    let mut r = z;
+    match which {
+        0 => {
+            r.mul_by_034(&f2(0), &f2(1), &f2(2));
+            let x = c.embed(2, &[(0, b[0].clone()), (3, b[1].clone()), (4, b[2].clone())]);
+            chk(&r, &c.tw.mul(&ze, &x), "mul_by_034")
+        },
+        1 => {
+            r.mul_by_014(&f2(0), &f2(1), &f2(2));
+            let x = c.embed(2, &[(0, b[0].clone()), (1, b[1].clone()), (4, b[2].clone())]);
+            chk(&r, &c.tw.mul(&ze, &x), "mul_by_014")
+        },
+        _ => {
+            r.mul_by_fp(&Fp12Fp::<P>::from_o(&Elem::P(sv.clone())));
+            chk(&r, &c.tw.mul(&ze, &c.tw.from_int(&sv)), "mul_by_fp")
+        },
+    }
+}
+
+// ---------------------------------------------------------------------------------------------
+// registration
+// ---------------------------------------------------------------------------------------------
+
+/// case budget: `base` cases for a tower whose oracle product costs about one unit (Fp2 over 4 limbs);
+/// scaled down with d^2 * limbs^2 and up 20x in the thorough tier
+fn budget(c: &Ctx, tier: Tier, base: u32) -> u32 {
+    let cost = ((c.d * c.d) as f64 / 4.0) * ((c.prime.n * c.prime.n) as f64 / 16.0).max(1.0);
+    let n = (base as f64 / cost.sqrt()).ceil() as u32;
+    tier.pick(n.max(12), (n * 20).max(240))
+}
+
+fn common<F>(out: &mut Vec<Rel>, c: &Arc<Ctx>, tier: Tier)
+where
+    F: Ext + CyclotomicMultSubgroup,
+    F::BasePrimeField: OracleRepr,
+{
+    let n = c.prime.n;
+    let d = c.d;
+    let words = 2 * d * (n + 6) + 32;
+    let bt = Arc::new(<F::Base as OracleRepr>::tower());
+    let cc = c.clone();
+    out.push(Rel::new(format!("arith/{}", c.name), budget(c, tier, 3600), words, move |t, o| arith::<F>(&cc, t, o)));
+    let cc = c.clone();
+    out.push(Rel::new(format!("frobenius/{}", c.name), budget(c, tier, 1500), words, move |t, o| frobenius::<F>(&cc, t, o)));
+    let cc = c.clone();
+    // direct schoolbook power: k * bits(p) oracle products per case
+    let kmax = if d * n <= 12 { d + 1 } else { 2 };
+    let nd = tier.pick(if d * n <= 12 { 24 } else { 4 }, if d * n <= 12 { 300 } else { 40 });
+    out.push(Rel::new(format!("frobenius-direct/{}", c.name), nd, words, move |t, o| frobenius_direct::<F>(&cc, kmax, t, o)).shrink_iters(40));
+    let cc = c.clone();
+    out.push(Rel::new(format!("norm-base/{}", c.name), budget(c, tier, 2000), words, move |t, o| base_rel::<F>(&cc, &bt, t, o)));
+    let cc = c.clone();
+    out.push(Rel::new(format!("cyclotomic/{}", c.name), budget(c, tier, 900), words, move |t, o| cyclo::<F>(&cc, false, t, o)).shrink_iters(400));
+    let cc = c.clone();
+    out.push(Rel::new(format!("cyclotomic-exp/{}", c.name), budget(c, tier, 260), words, move |t, o| cyclo::<F>(&cc, true, t, o)).shrink_iters(200));
+}
+
+fn fp2_rels<P: Fp2Config>(out: &mut Vec<Rel>, name: &str, tier: Tier)
+where
+    P::Fp: OracleRepr,
+{
+    let c = Ctx::new::<Fp2<P>>(name);
+    common::<Fp2<P>>(out, &c, tier);
+    let w = 2 * c.d * (c.prime.n + 6) + 32;
+    let cc = c.clone();
+    out.push(Rel::new(format!("sparse/{}", name), budget(&c, tier, 6000), w, move |t, o| sparse_fp2::<P>(&cc, t, o)));
+}
+
+fn fp3_rels<P: Fp3Config>(out: &mut Vec<Rel>, name: &str, tier: Tier)
+where
+    P::Fp: OracleRepr,
+{
+    let c = Ctx::new::<Fp3<P>>(name);
+    common::<Fp3<P>>(out, &c, tier);
+    let w = 2 * c.d * (c.prime.n + 6) + 32;
+    let cc = c.clone();
+    out.push(Rel::new(format!("sparse/{}", name), budget(&c, tier, 6000), w, move |t, o| sparse_fp3::<P>(&cc, t, o)));
+}
+
+fn fp4_rels<P: Fp4Config>(out: &mut Vec<Rel>, name: &str, tier: Tier)
+where
+    <P::Fp2Config as Fp2Config>::Fp: OracleRepr,
+{
+    let c = Ctx::new::<Fp4<P>>(name);
+    common::<Fp4<P>>(out, &c, tier);
+    let w = 2 * c.d * (c.prime.n + 6) + 32;
+    let t2 = Arc::new(<Fp2<P::Fp2Config> as OracleRepr>::tower());
+    let cc = c.clone();
+    out.push(Rel::new(format!("sparse/{}", name), budget(&c, tier, 6000), w, move |t, o| sparse_fp4::<P>(&cc, &t2, t, o)));
+}
+
+fn fp6q_rels<P: f6q::Fp6Config>(out: &mut Vec<Rel>, name: &str, tier: Tier)
+where
+    <P::Fp3Config as Fp3Config>::Fp: OracleRepr,
+{
+    let c = Ctx::new::<f6q::Fp6<P>>(name);
+    common::<f6q::Fp6<P>>(out, &c, tier);
+    let w = 2 * c.d * (c.prime.n + 6) + 32;
+    let cc = c.clone();
+    out.push(Rel::new(format!("sparse/{}", name), budget(&c, tier, 6000), w, move |t, o| sparse_fp6q::<P>(&cc, t, o)));
+}
+
+fn fp6c_rels<P: Fp6Config>(out: &mut Vec<Rel>, name: &str, tier: Tier)
+where
+    <P::Fp2Config as Fp2Config>::Fp: OracleRepr,
+{
+    let c = Ctx::new::<Fp6<P>>(name);
+    common::<Fp6<P>>(out, &c, tier);
+    let w = 2 * c.d * (c.prime.n + 6) + 32;
+    let t2 = Arc::new(<Fp2<P::Fp2Config> as OracleRepr>::tower());
+    let cc = c.clone();
+    out.push(Rel::new(format!("sparse/{}", name), budget(&c, tier, 6000), w, move |t, o| sparse_fp6c::<P>(&cc, &t2, t, o)));
+}
+
+fn fp12_rels<P: Fp12Config>(out: &mut Vec<Rel>, name: &str, tier: Tier)
+where
+    Fp12Fp<P>: OracleRepr,
+{
+    let c = Ctx::new::<Fp12<P>>(name);
+    common::<Fp12<P>>(out, &c, tier);
+    let w = 2 * c.d * (c.prime.n + 6) + 32;
+    let t2 = Arc::new(<Fp12Fp2<P> as OracleRepr>::tower());
+    let cc = c.clone();
+    out.push(Rel::new(format!("sparse/{}", name), budget(&c, tier, 6000), w, move |t, o| sparse_fp12::<P>(&cc, &t2, t, o)));
+}
+
+fn relations(tier: Tier) -> Vec<Rel> {
+    let mut out = Vec::new();
+    // heavy towers first (the engine hands relations to threads in order)
+    fp12_rels::<ark_bls12_381::Fq12Config>(&mut out, "bls12_381.Fq12", tier);
+    fp12_rels::<ark_bls12_377::Fq12Config>(&mut out, "bls12_377.Fq12", tier);
+    fp12_rels::<ark_bn254::Fq12Config>(&mut out, "bn254.Fq12", tier);
+    fp12_rels::<ark_test_curves::bls12_381::Fq12Config>(&mut out, "test.bls12_381.Fq12", tier);
+    fp6q_rels::<ark_bw6_761::Fq6Config>(&mut out, "bw6_761.Fq6", tier);
+    fp6q_rels::<ark_bw6_767::Fq6Config>(&mut out, "bw6_767.Fq6", tier);
+    fp6q_rels::<ark_cp6_782::Fq6Config>(&mut out, "cp6_782.Fq6", tier);
+    fp6q_rels::<ark_mnt6_753::Fq6Config>(&mut out, "mnt6_753.Fq6", tier);
+    fp6q_rels::<ark_mnt6_298::Fq6Config>(&mut out, "mnt6_298.Fq6", tier);
+    fp4_rels::<ark_mnt4_753::Fq4Config>(&mut out, "mnt4_753.Fq4", tier);
+    fp4_rels::<ark_mnt4_298::Fq4Config>(&mut out, "mnt4_298.Fq4", tier);
+    fp6c_rels::<ark_bls12_381::Fq6Config>(&mut out, "bls12_381.Fq6", tier);
+    fp6c_rels::<ark_bls12_377::Fq6Config>(&mut out, "bls12_377.Fq6", tier);
+    fp6c_rels::<ark_bn254::Fq6Config>(&mut out, "bn254.Fq6", tier);
+    fp6c_rels::<ark_test_curves::bls12_381::Fq6Config>(&mut out, "test.bls12_381.Fq6", tier);
+    fp3_rels::<ark_bw6_761::Fq3Config>(&mut out, "bw6_761.Fq3", tier);
+    fp3_rels::<ark_bw6_767::Fq3Config>(&mut out, "bw6_767.Fq3", tier);
+    fp3_rels::<ark_cp6_782::Fq3Config>(&mut out, "cp6_782.Fq3", tier);
+    fp3_rels::<ark_mnt6_753::Fq3Config>(&mut out, "mnt6_753.Fq3", tier);
+    fp3_rels::<ark_mnt6_298::Fq3Config>(&mut out, "mnt6_298.Fq3", tier);
+    fp3_rels::<ark_test_curves::mnt6_753::Fq3Config>(&mut out, "test.mnt6_753.Fq3", tier);
+    fp2_rels::<ark_mnt4_753::Fq2Config>(&mut out, "mnt4_753.Fq2", tier);
+    fp2_rels::<ark_mnt4_298::Fq2Config>(&mut out, "mnt4_298.Fq2", tier);
+    fp2_rels::<ark_bls12_381::Fq2Config>(&mut out, "bls12_381.Fq2", tier);
+    fp2_rels::<ark_bls12_377::Fq2Config>(&mut out, "bls12_377.Fq2", tier);
+    fp2_rels::<ark_bn254::Fq2Config>(&mut out, "bn254.Fq2", tier);
+    fp2_rels::<ark_test_curves::bls12_381::Fq2Config>(&mut out, "test.bls12_381.Fq2", tier);
+    toy::relations(&mut out, tier);
+    out
+}
+
 fn main() {
-    eprintln!("C02: check not implemented");
-    std::process::exit(2);
+    vh_core::engine::main(PropSpec {
+        id: "C02",
+        rule: "Elements are built per prime-field coordinate (raw Montgomery limbs) from the edge-biased prime-field strategy with structural classes: zero, one, prime-subfield, coordinate-aligned proper subfield, single non-zero coordinate, sparse, dense; second operands are independent or correlated (a, -a, 1/a, conjugate); sparse operands of mul_by_034/014/01/1/fp/fp2 are drawn per coefficient (zero, one, edge values) and embedded at the coordinates their name denotes; cyclotomic elements are produced by the oracle as x^((p^(d/2)-1)(p^(d/6)+1)) and their membership is re-checked with the oracle Frobenius; cyclotomic exponents include all-ones limbs, top-heavy limbs, leading zero limbs, empty. Over all 27 shipped tower types (Fp2 x6, Fp3 x6, Fp4 x2, Fp6-2over3 x5, Fp6-3over2 x4, Fp12 x4) and toy towers over p = 7, 13 (all ordered pairs / all elements). Every result is compared coordinate-wise (and for canonicity) with schoolbook arithmetic modulo the defining binomials built from BigUint arithmetic and the NONRESIDUE constants only; Frobenius by x -> x^p (linear extension of the schoolbook powers of the basis, cross-checked against the direct schoolbook power). A case is non-trivial when every tower operand is outside {0,1} (it then has at least two non-zero coordinates or belongs to one of the structural classes above); for cyclotomic relations when the subgroup element is not 1. distinct = distinct decoded choice sequences.",
+        assumptions: &[
+            "num-bigint arithmetic is correct (oracle)",
+            "NONRESIDUE constants of the shipped configurations define the intended fields (the oracle reads them; irreducibility is implied by the oracle check x^(p^d) = x and the inverse checks)",
+            "prime-field arithmetic is the subject of C01",
+        ],
+        relations,
+    })
 }
